@@ -3,10 +3,12 @@ import random
 import tracegen
 import framework as fw
 import cp_common as cp
+import translate
 
 ID = "C08"
 COQ_IMPORTS = ["From HTA.lib Require Import Dag.", "From HTA.model Require Import C08_Model C08_Host C08_Dev."]
 SOURCES = cp.SOURCES
+TRANSLATE = [translate.gen_cprules]
 ASSUMPTIONS_HOST = "the depth-first traversal order is taken from the implementation's CallStackGraph.dfs_traverse; its well-formedness (wf_actions) is decided in Coq on every case"
 N_CASES = {"quick": 250, "thorough": 4000}
 RULE = ("generated causally consistent well-formed file sets (device work starts no earlier than its launch call; every synchronising call returns after the work it "
